@@ -49,6 +49,46 @@ def assembleRHS (L : Layout) (onlyMean : Bool) (c : Nat → Nat → α) (f e : N
     else if L.eStart ≤ i ∧ i < L.size then e (i - L.eStart) p
     else ((0:Nat):α)
 
+/-! ### the covariance entries from lags: plain covariance in the matrix, nugget-aware covariance on exact right-hand sides
+
+`_get_krige_mat` fills the conditioning block with `model.covariance(lags)` — the PLAIN covariance at every lag,
+also at lag 0 between two different conditioning points at one location (repeated measurements) — and adds the
+measurement error (`cond_err`: the model nugget by default, a scalar, or one value per point) to the DIAGONAL only.
+`_get_krige_vecs` uses `model.cov_nugget` in exact mode: the sill at every lag inside numpy's `isclose` band of 0. -/
+
+/-- `np.isclose(r, 0)` with the numpy defaults: `|r| ≤ 1e-8` (absolute; lags are distances of isometrised positions) -/
+def lagZero (r : α) : Bool := decide (fabs r ≤ (1e-8 : α))
+
+/-- `CovModel.cov_nugget` on a lag whose plain covariance is `cv`: the sill inside the band, `cv` outside -/
+def covNugget (sill r cv : α) : α := if lagZero r then sill else cv
+
+/-- the covariance entry of a right-hand side: `cf = cov_nugget if exact else covariance`.
+    `d i p` = lag between conditioning point `i` and target `p`, `cv i p` = the model's plain covariance at that lag -/
+def rhsCov (exact : Bool) (sill : α) (d cv : Nat → Nat → α) : Nat → Nat → α :=
+  fun i p => if exact then covNugget sill (d i p) (cv i p) else cv i p
+
+/-- the `cond_err` setting of a `Krige` object -/
+inductive ErrSpec (α : Type) where
+  | nugget                       -- `cond_err="nugget"` (default): the model's nugget at the time the matrix is built
+  | scalar (e : α)               -- one measurement error for all points
+  | perPoint (e : Nat → α)       -- one measurement error per conditioning point
+
+/-- the property `cond_err` broadcast over the diagonal (`res[np.diag_indices(n)] += self.cond_err`) -/
+def condErr (nugget : α) : ErrSpec α → Nat → α
+  | .nugget => fun _ => nugget
+  | .scalar e => fun _ => e
+  | .perPoint e => e
+
+/-- `_get_krige_mat` before inversion, from the configuration: plain covariances `cv i j` of the lags between the
+    conditioning points, the error setting and the model nugget -/
+def assembleKCfg (L : Layout) (cv : Nat → Nat → α) (nugget : α) (es : ErrSpec α) (F E : Nat → Nat → α) : Nat → Nat → α :=
+  assembleK L cv (condErr nugget es) F E
+
+/-- `_get_krige_vecs` from lags: exact flag, sill, lags and plain covariances to the targets -/
+def assembleRHSLag (L : Layout) (onlyMean exact : Bool) (sill : α) (d cv : Nat → Nat → α) (f e : Nat → Nat → α) :
+    Nat → Nat → α :=
+  assembleRHS L onlyMean (rhsCov exact sill d cv) f e
+
 /-- `_krige_cond`: (normalised, detrended) data minus mean, zero padded -/
 def krigeCond (L : Layout) (valn mean : Nat → α) : Nat → α :=
   fun i => if i < L.n then valn i - mean i else ((0:Nat):α)
@@ -275,6 +315,26 @@ def ops (op : String) (j : Json) : Option (Except String Json) :=
       let C ← getFloats j "C"; let err ← getFloats j "err"; let F ← getFloats j "F"; let E ← getFloats j "E"
       let K := assembleK L (ofList2 C L.n) (ofList err) (ofList2 F L.n) (ofList2 E L.n)
       return fl2 (tab2 K L.size L.size))
+  | "krige_assemble_cfg" => some (do
+      -- the matrix from the configuration: plain covariances of the lags, error setting (kind + values), model nugget
+      let L ← getLayout j
+      let cv ← getFloats j "cv"; let F ← getFloats j "F"; let E ← getFloats j "E"
+      let nug ← getFloat j "nugget"; let ev ← getFloats j "errv"
+      let es : ErrSpec Float ← match ← getStr j "errkind" with
+        | "nugget" => pure ErrSpec.nugget
+        | "scalar" => pure (ErrSpec.scalar ((ofList ev) 0))
+        | "array" => pure (ErrSpec.perPoint (ofList ev))
+        | k => throw s!"unknown error kind {k}"
+      let K := assembleKCfg L (ofList2 cv L.n) nug es (ofList2 F L.n) (ofList2 E L.n)
+      return fl2 (tab2 K L.size L.size))
+  | "krige_rhs_lag" => some (do
+      -- right-hand sides from lags: the model decides plain / nugget-aware covariance (exact flag, isclose band)
+      let L ← getLayout j
+      let m ← getNat j "m"; let om ← getBool j "only_mean"; let ex ← getBool j "exact"
+      let sill ← getFloat j "sill"
+      let d ← getFloats j "d"; let cv ← getFloats j "cv"; let f ← getFloats j "f"; let e ← getFloats j "e"
+      let R := assembleRHSLag L om ex sill (ofList2 d m) (ofList2 cv m) (ofList2 f m) (ofList2 e m)
+      return fl2 (tab2 R L.size m))
   | "krige_rhs" => some (do
       let L ← getLayout j
       let m ← getNat j "m"; let om ← getBool j "only_mean"
